@@ -63,3 +63,24 @@ package keystore
 //@   trusted
 //@   requires km != nil
 //@   ensures (result1 == nil) == (result0 != nil)
+
+// ---- C13 (lemma level): left padding of the decoded entropy; the checksum is computed over the full-length
+// entropy; a sentence is accepted only if every one of its words is a list word as written.
+//@ func padByteSlice
+//@   props C13 C19
+//@   requires 0 <= length && length <= 1024
+//@   ensures len(slice) >= length ==> sameSlice(result, slice)
+//@   ensures len(slice) < length ==> fresh(result) && len(result) == length && bytesEq(result, length - len(slice), slice, 0, len(slice))
+//@   ensures len(slice) < length ==> forall qi_ int :: 0 <= qi_ && qi_ < length - len(slice) ==> result[qi_] == 0
+
+//@ func EntropyFromMnemonic
+//@   props C13
+//@   nopanic off
+//@   modifies *
+//@   at "entropyChecksumBytes := computeChecksum(entropy)" assert[C13] len(entropy) >= len(mnemonicSlice)/3*4
+
+//@ func IsMnemonicValid
+//@   props C13 C19
+//@   ensures[C13] result ==> ghost("nfields", mnemonic) % 3 == 0 && ghost("nfields", mnemonic) >= 12 && ghost("nfields", mnemonic) <= 24
+//@   ensures[C13] result ==> forall qi_ int :: 0 <= qi_ && qi_ < ghost("nfields", mnemonic) ==> has(wordMap, ghosts("field", mnemonic, qi_))
+//@   loop#1 invariant forall qi_ int :: 0 <= qi_ && qi_ < iter_ ==> has(wordMap, ghosts("field", mnemonic, qi_))
